@@ -29,6 +29,7 @@ type World struct {
 	modsets map[*ssa.Function]map[string]bool
 	repo    string
 	assumed map[string]bool // notes about assumed/unknown callees (for evidence)
+	finalFields map[string]bool
 }
 
 type fieldInfo struct {
